@@ -113,9 +113,24 @@ def _grid_faces(nu, nv, tri):
     return F
 
 
+def bigon(k1, k2, shared=2):
+    """two polygons (k1- and k2-gons) glued along `shared` consecutive edges: the vertices strictly inside the shared
+    chain are interior vertices of valence 2, and the two faces are adjacent through SEVERAL edges"""
+    chain = list(range(shared + 1))                       # 0..shared : the shared chain
+    a_rest = list(range(shared + 1, k1))                  # the remaining vertices of polygon A
+    b_rest = list(range(k1, k1 + k2 - shared - 1))        # ... of polygon B
+    A = chain + a_rest
+    B = list(reversed(chain)) + b_rest
+    nv = k1 + k2 - shared - 1
+    V = [[int(round(5 * math.cos(2 * math.pi * i / nv))) + (i % 2), int(round(5 * math.sin(2 * math.pi * i / nv))), i % 3] for i in range(nv)]
+    return nv, V, [A, B]
+
+
 def gen_surface_piece(rng, big=False):
     """(n_vertices, coords, faces) of one oriented manifold piece"""
-    kind = rng.choice(["grid", "grid", "grid", "tet", "octa", "cube", "torus", "single", "fan"])
+    kind = rng.choice(["grid", "grid", "grid", "tet", "octa", "cube", "torus", "single", "fan", "bigon"])
+    if kind == "bigon":
+        return bigon(rng.choice([4, 4, 5, 6]), rng.choice([4, 5, 6]), rng.choice([2, 2, 3]))
     if kind == "single":
         k = rng.choice([3, 3, 4, 5])
         return k, [[int(round(3 * math.cos(2 * math.pi * i / k))), int(round(3 * math.sin(2 * math.pi * i / k))), 0]
@@ -491,6 +506,25 @@ def expand_sessions(cases, obs):
             out_c.append(cc)
             out_o.append(r)
     return out_c, out_o
+
+
+def bigon_cases(rng):
+    """two faces joined by several edges: each single edge excluded in turn (and each pair), every root, trees and forests"""
+    out = []
+    for k1, k2, sh in ((4, 4, 2), (5, 4, 2), (5, 6, 3)):
+        nv, V, F = bigon(k1, k2, sh)
+        if rng.random() < 0.5:
+            F = [F[1], F[0]]
+        mesh = {"type": "surface", "V": V, "E": [], "F": F, "C": [], "shape": "surface/bigon%d-%d-%d" % (k1, k2, sh)}
+        n_edges = k1 + k2 - sh
+        sets = [[e] for e in range(n_edges)] + [sorted(rng.sample(range(n_edges), 2)) for _ in range(3)]
+        for ex in sets:
+            out.append({"mesh": mesh, "what": "face_forest", "op": "forest", "kind": "face", "excl": ex,
+                        "read_order": rng.randrange(12), "calls": 1})
+            for r in (0, 1):
+                out.append({"mesh": mesh, "what": "face_tree", "op": "tree", "kind": "face", "root": r, "excl": ex,
+                            "read_order": rng.randrange(12), "calls": 1})
+    return out
 
 
 def all_roots_cases(rng, count):
@@ -1072,7 +1106,7 @@ def classify(case, msg):
 # ====================================================================== the check
 def run(ctx):
     quick = ctx.tier == "quick"
-    n_rand = 330 if quick else 14000
+    n_rand = 310 if quick else 14000
     n_sessions = 45 if quick else 1200
     n_roots = 150 if quick else 3000
     ctx.rule = ("meshes built through RawMeshData: polylines (random graphs incl. empty, paths, cycles, two components, "
@@ -1118,6 +1152,8 @@ def run(ctx):
     cases += [gen_case(ctx.rng, big and k % 10 == 0) for k in range(n_rand)]
     cases += all_roots_cases(ctx.rng, n_roots)
     cases += [gen_session(ctx.rng) for _ in range(n_sessions)]
+    bc = bigon_cases(ctx.rng)
+    cases += bc if not quick else ctx.rng.sample(bc, 40)
     for _ in range(4 if quick else 60):
         mesh = gen_polyline(ctx.rng, long=True)
         nvx = len(mesh["V"])
